@@ -1,6 +1,6 @@
 import CohdlVerif.Model.Coro
 import CohdlVerif.Lemmas.C01Top5
-import CohdlVerif.Lemmas.C01X7
+import CohdlVerif.Lemmas.C01Y11
 
 /-! C01 - theorems (moved from the design sketches; names prefixed C01.) -/
 open CohdlVerif.C01
@@ -283,15 +283,13 @@ example : closed 100 prog smBad rel = false := by decide
           ∃ f, ∀ f', f ≤ f' → (refTrace act cond f' p inp n (some (.start, s0))).map (·.2) =
             some (smTrace act cond sm inp n (0, s0)).2
 
-  PROVED below: `C01.compile_correct_frag1` for `frag1` = skip | act | await c | await true | await false | if/else |
-  while c | while True, and (stage 1) `C01.compile_correct_partial` for `frag2` = `frag1` + `break` + `continue`,
-  arbitrarily nested (`C01.fragments`: frag1 ⊆ frag2 ⊆ wf).  MISSING in the end-to-end theorem: `return` and awaited
-  sub-coroutines (`call`).
-
-  What stages 2/3 still need (Lemmas/C01G*, C01S*, C01W*, C01X* hold the general machinery, proved for every
-  statement form except `call`): `simG_call` / `fwd_call` (list swap around the body, `ret` through the `callF` frame),
-  the plain-statement lemma with a `return` exit (a call whose body returns is plain), `NoTrLists` for calls, the
-  always-returning branch (`retAlways`) of `simG_ite`, and the assembling induction over `wf`.
+  PROVED below, in three stages: `C01.compile_correct_frag1` (`frag1` = skip | act | await c | await true | await false |
+  if/else | while c | while True), `C01.compile_correct_partial` (`frag2` = `frag1` + `break` + `continue`) and finally
+  the FULL statement `C01.compile_correct` for every well-formed program (`wf p false false`: the whole grammar incl.
+  `return` and awaited sub-coroutines).  `C01.fragments`: frag1 ⊆ frag2 ⊆ wf.  Nothing of the statement is missing;
+  the remaining caveats are: the fuel bound is per trace (`∃ f, ∀ f' ≥ f`), `wf` excludes `await false` inside an awaited
+  sub-coroutine, and `compileSM p = some sm` is a hypothesis (the mirror accepts; the tie checks on every run that it
+  does so exactly when the real compiler does).
 -/
 
 /-- for every program of fragment 1, every interpretation of actions and conditions, every environment behaviour
@@ -314,6 +312,18 @@ theorem C01.compile_correct_partial (p : Stmt) (hp : frag2 p false = true) (sm :
     ∃ f, ∀ f', f ≤ f' → (refTrace act cond f' p inp n (some (.start, s0))).map (·.2) =
       some (smTrace act cond sm inp n (0, s0)).2 :=
   CohdlVerif.C01.compile_correct_frag2 act cond p hp sm h inp s0 n
+
+/-- THE FULL THEOREM: for every well-formed coroutine body of the whole grammar (act | await c | await true |
+    await false | if/else | while c | while True | break | continue | return | awaited sub-coroutines, arbitrarily
+    nested), every interpretation of actions and conditions, every environment behaviour `inp`, every initial data
+    state and every number of clocks: if the mirror of the real open-blocks algorithm produces the machine `sm`, the
+    complete data state of `sm` after `n` clocks equals that of the reference execution of the coroutine body (for
+    every sufficiently large fuel of the reference interpreter, which is in particular defined). -/
+theorem C01.compile_correct (p : Stmt) (hwf : wf p false false = true) (sm : SM) (h : compileSM p = some sm)
+    (inp : Nat → σ → σ) (s0 : σ) (n : Nat) :
+    ∃ f, ∀ f', f ≤ f' → (refTrace act cond f' p inp n (some (.start, s0))).map (·.2) =
+      some (smTrace act cond sm inp n (0, s0)).2 :=
+  CohdlVerif.C01.compile_correct_wf act cond p hwf sm h inp s0 n
 
 /-- fragment 1 is contained in fragment 2, and fragment 2 in the well-formed programs -/
 theorem C01.fragments (p : Stmt) : (frag1 p = true → frag2 p false = true) ∧ (frag2 p false = true → wf p false false = true) :=
@@ -364,6 +374,21 @@ open CohdlVerif.C01.Example in
 /-- non-vacuity of `C01.compile_correct_partial` (stage 1): the upstream loop + await + break + continue design
     `Example.prog` is in fragment 2 and the mirror produces (exactly the real) machine for it -/
 example : frag2 prog false = true ∧ (compileSM prog).map (·.codes) = some sm.codes := by decide
+
+namespace CohdlVerif.C01.Example
+/-- a program with an awaited sub-coroutine that returns from inside a branch and from inside a loop, called inside
+    a loop with break -/
+def prog3 : Stmt :=
+  .act 1 (.while_ none
+    (.call (.ite 2 .ret (.act 2 .skip) (.while_ (some 3) (.await (some 0) (.ite 4 .ret .skip .skip)) (.act 3 .ret)))
+      (.await none (.ite 1 .brk .skip .skip)))
+    (.act 4 .skip))
+end CohdlVerif.C01.Example
+
+open CohdlVerif.C01.Example in
+/-- non-vacuity of the full theorem `C01.compile_correct`: `prog3` (sub-coroutine, returns, loops, break) is
+    well-formed and accepted by the mirror -/
+example : wf prog3 false false = true ∧ (compileSM prog3).isSome = true := by decide
 
 /-- the mirror rejects `continue` in the first state of its loop, as the real compiler does -/
 example : compileSM (.while_ (some 1) (.act 1 .cont) .skip) = none := by decide
